@@ -178,6 +178,9 @@ func smtScriptInt(asserts []*Term) (script string, vars []*Term, err string) {
 		if t.op == "var" {
 			vars = append(vars, t)
 		}
+		if t.w == wFP {
+			return "", nil, "floating-point term in the integer encoding"
+		}
 	}
 	sort.Slice(vars, func(i, j int) bool { return vars[i].name < vars[j].name })
 	var sb strings.Builder
